@@ -1,6 +1,8 @@
 package libschema
 
 import (
+	"strings"
+
 	"github.com/luthersystems/elps/lisp"
 	"github.com/luthersystems/elps/lisp/lisplib/libjson"
 	"github.com/luthersystems/elps/parser"
@@ -651,6 +653,11 @@ func VerifC14_KNested() {
 	env.PutGlobal(lisp.Symbol("u"), lisp.Int(u))
 	env.PutGlobal(lisp.Symbol("v"), lisp.Int(v))
 	env.PutGlobal(lisp.Symbol("x"), lisp.Int(x))
+	// the inner validator's NAME is a dimension of its own: a user may call a type "number" or "int" --
+	// the names of built-in types are unbound in the user package and s:deftype accepts them -- and the
+	// validator bound to that name is the user's, with its constraints, wherever it is used
+	names := []string{"small", "number", "int", "string", "any", "float"}
+	nm := names[vConcInt(vndChoice("name", len(names)))]
 	forms := []string{
 		"(s:deftype \"small\" s:int (s:lt u)) (s:deftype \"tiny\" small (s:lt v))",
 		"(s:deftype \"small\" s:int (s:lt u)) (s:deftype \"tiny\" 'small (s:lt v))",
@@ -658,17 +665,29 @@ func VerifC14_KNested() {
 		"(set 'tiny (s:make-validator \"tiny\" (s:make-validator \"small\" s:int (s:lt u)) (s:lt v)))",
 		"(s:deftype \"small\" s:int (s:lt u)) (s:deftype \"mid\" small) (s:deftype \"tiny\" mid (s:lt v))",
 		"(s:deftype \"small\" s:int (s:lt u)) (s:deftype \"tiny\" s:int (s:lt v) small)",
+		// the nested validator as the allowed type of a map key / of the elements of a list
+		"(s:deftype \"small\" s:int (s:lt u)) (s:deftype \"tiny\" s:sorted-map (s:has-key \"n\" small))",
+		"(s:deftype \"small\" s:int (s:lt u)) (s:deftype \"tiny\" s:sorted-map (s:may-have-key \"n\" 'small))",
+		"(s:deftype \"small\" s:int (s:lt u)) (s:deftype \"tiny\" s:array (s:of small))",
 	}
 	fi := vConcInt(vndChoice("form", len(forms)))
-	r := c14Load(env, forms[fi])
+	form := strings.ReplaceAll(forms[fi], "small", nm)
+	r := c14Load(env, form)
 	vAssert(r.Type != lisp.LError, "schemas build: "+c14Verdict(r))
-	got := c14Verdict(c14Load(env, "(s:validate tiny x)"))
-	vObserve("form", forms[fi])
-	if x < u && x < v {
+	subject, vlim := "x", v
+	switch fi {
+	case 6, 7:
+		subject, vlim = "(sorted-map \"n\" x)", u
+	case 8:
+		subject, vlim = "(vector x)", u
+	}
+	got := c14Verdict(c14Load(env, "(s:validate tiny "+subject+")"))
+	vObserve("form", form)
+	if x < u && x < vlim {
 		vAssert(got == "ok", "a value satisfying the inner validator and the outer constraints validates: "+got)
 		vCover("accept")
 	} else {
-		vAssert(got == FailedConstraint, "a value the inner validator or an outer constraint refuses is failed-constraint: "+got)
+		vAssert(got == FailedConstraint || (fi >= 6 && got == WrongType), "a value the inner validator or an outer constraint refuses is failed-constraint (wrong-type where the nested validator is one of several allowed types): "+got)
 		vCover("reject")
 	}
 	gs := c14Verdict(c14Load(env, "(s:validate tiny \"s\")"))
